@@ -264,12 +264,19 @@ impl<'a, SE: brush_core::ShellExtensions> Highlighter<'a, SE> {
                 self.append_span(HighlightKind::Parameter, piece.clone());
             }
             brush_parser::word::WordPiece::BackquotedCommandSubstitution(command) => {
-                self.set_next_missing_kind(HighlightKind::CommandSubstitution);
-                self.highlight_program(
-                    command.as_str(),
-                    piece.start + 1, /* opening backtick */
-                );
-                self.set_next_missing_kind(HighlightKind::CommandSubstitution);
+                // The parser removes the backslashes of escaped backquotes from the command;
+                // when it did, offsets in the command no longer map onto the input line, so
+                // the substitution is highlighted as a whole.
+                if command.len() + 2 == piece.len() {
+                    self.set_next_missing_kind(HighlightKind::CommandSubstitution);
+                    self.highlight_program(
+                        command.as_str(),
+                        piece.start + 1, /* opening backtick */
+                    );
+                    self.set_next_missing_kind(HighlightKind::CommandSubstitution);
+                } else {
+                    self.append_span(HighlightKind::CommandSubstitution, piece.clone());
+                }
             }
             brush_parser::word::WordPiece::CommandSubstitution(command) => {
                 self.set_next_missing_kind(HighlightKind::CommandSubstitution);
